@@ -1781,6 +1781,10 @@ sexp sexp_quotient (sexp ctx, sexp a, sexp b) {
     r = sexp_type_exception(ctx, NULL, SEXP_FIXNUM, b);
     break;
   case SEXP_NUM_FIX_FIX:
+    if (b == SEXP_ZERO) {
+      r = sexp_xtype_exception(ctx, NULL, "divide by zero", a);
+      break;
+    }
     r = sexp_fx_div(a, b);
     if ((sexp_sint_t)a < 0 && (sexp_sint_t)b < 0 && (sexp_sint_t)r < 0) {
       r = sexp_quotient(ctx, tmp=sexp_fixnum_to_bignum(ctx, a), b);
@@ -1865,6 +1869,10 @@ sexp sexp_remainder (sexp ctx, sexp a, sexp b) {
     r = sexp_type_exception(ctx, NULL, SEXP_FIXNUM, b);
     break;
   case SEXP_NUM_FIX_FIX:
+    if (b == SEXP_ZERO) {
+      r = sexp_xtype_exception(ctx, NULL, "divide by zero", a);
+      break;
+    }
     r = sexp_fx_rem(a, b);
     break;
   case SEXP_NUM_FIX_BIG:
